@@ -47,6 +47,46 @@ type kOp struct {
 type kRes struct {
 	Status int    `json:"status"`
 	Body   string `json:"body"`
+	// alias store: every read function of pkg/virtualtable, taken after the operation, per tenant
+	Snap map[string]*aliasSnap `json:"snap,omitempty"`
+}
+
+// aliasSnap: what the alias read functions of pkg/virtualtable answer for one tenant
+type aliasSnap struct {
+	Rev       map[string][]string `json:"rev"`        // GetAllAliasesAsMapArray: alias -> indexes (non-empty only)
+	Fwd       map[string][]string `json:"fwd"`        // GetAliasesAsArray(name): index -> aliases (non-empty only)
+	IsAlias   map[string]string   `json:"is_alias"`   // IsAlias(name): index or "" per name
+	FromAlias map[string]string   `json:"from_alias"` // GetIndexNameFromAlias(name): index or ""
+	Expand    map[string][]string `json:"expand"`     // ExpandAndReturnIndexNames(name)
+}
+
+func takeAliasSnap(orgs []int64, names []string) map[string]*aliasSnap {
+	res := map[string]*aliasSnap{}
+	for _, org := range orgs {
+		sn := &aliasSnap{Rev: map[string][]string{}, Fwd: map[string][]string{}, IsAlias: map[string]string{}, FromAlias: map[string]string{}, Expand: map[string][]string{}}
+		all, _ := vtable.GetAllAliasesAsMapArray(org)
+		for a, ixs := range all {
+			if len(ixs) > 0 {
+				sort.Strings(ixs)
+				sn.Rev[a] = ixs
+			}
+		}
+		for _, n := range names {
+			if as, err := vtable.GetAliasesAsArray(n, org); err == nil && len(as) > 0 {
+				sort.Strings(as)
+				sn.Fwd[n] = as
+			}
+			if ok, ix := vtable.IsAlias(n, org); ok {
+				sn.IsAlias[n] = ix
+			}
+			if ix, err := vtable.GetIndexNameFromAlias(n, org); err == nil {
+				sn.FromAlias[n] = ix
+			}
+			sn.Expand[n] = vtable.ExpandAndReturnIndexNames(n, org, false, nil)
+		}
+		res[fmt.Sprint(org)] = sn
+	}
+	return res
 }
 
 type segIn struct {
@@ -55,6 +95,7 @@ type segIn struct {
 	Ops           []kOp          `json:"ops"`
 	IDs           map[int]string `json:"ids"`
 	Orgs          []int64        `json:"orgs"`
+	Names         []string       `json:"names,omitempty"` // alias store: the names every snapshot asks about
 	CleanShutdown bool           `json:"clean_shutdown"`
 }
 
@@ -307,7 +348,11 @@ func workerMain(args []string) {
 		default:
 			st, body = -1, []byte("unknown op")
 		}
-		out.Res = append(out.Res, kRes{st, string(body)})
+		kr := kRes{Status: st, Body: string(body)}
+		if in.Store == "alias" {
+			kr.Snap = takeAliasSnap(in.Orgs, in.Names)
+		}
+		out.Res = append(out.Res, kr)
 	}
 	if in.CleanShutdown && in.Store == "alias" {
 		// what ShutdownSiglensServer does for this store
@@ -324,6 +369,7 @@ type scenario struct {
 	// segments separated by restarts; Clean[i] = segment i ends with a clean shutdown
 	Segs  [][]kOp `json:"segments"`
 	Clean []bool  `json:"clean_shutdown,omitempty"`
+	Names []string `json:"names,omitempty"`
 	// known-class stream whose defect is a request that never returns: class reported on a time-out
 	HangClass string `json:"hang_class,omitempty"`
 
@@ -340,7 +386,7 @@ func (sc *scenario) run(self, work string, idx int) {
 	ids := map[int]string{}
 	sc.hung = -1
 	for i, seg := range sc.Segs {
-		in := segIn{Store: sc.Store, Dir: dir + "/data", Ops: seg, IDs: ids, Orgs: sc.Orgs}
+		in := segIn{Store: sc.Store, Dir: dir + "/data", Ops: seg, IDs: ids, Orgs: sc.Orgs, Names: sc.Names}
 		if i < len(sc.Clean) {
 			in.CleanShutdown = sc.Clean[i]
 		}
@@ -1009,13 +1055,16 @@ func checkDash(sc *scenario, sum *vhlib.Summary) *verdict {
 
 // ---------------------------------------------------------------- index aliases
 
+var aliasIdxs = []string{"i1", "idx-2", "a.b", "weird name", "üx"}
+var aliasAls = []string{"al1", "al-2", "i1", "ü2", "al 3"}
+
 func genAlias(r *vhlib.Rng, n int, stream string) []*scenario {
-	idxs := []string{"i1", "idx-2", "a.b", "weird name", "üx"}
-	als := []string{"al1", "al-2", "i1", "ü2", "al 3"}
+	idxs, als := aliasIdxs, aliasAls
+	names := append(append([]string{}, idxs...), als...)
 	orgs := []int64{0, 5}
 	var scs []*scenario
 	mk := func(ops []kOp, cuts map[int]bool, clean []bool) {
-		scs = append(scs, &scenario{Store: "alias", Class: stream, Orgs: orgs, Segs: splitSegs(ops, cuts), Clean: clean})
+		scs = append(scs, &scenario{Store: "alias", Class: stream, Orgs: orgs, Names: names, Segs: splitSegs(ops, cuts), Clean: clean})
 	}
 	if stream == "alias_restart" {
 		mk([]kOp{{Op: "aadd", Name: "i1", Alias: "al1"}, {Op: "aisalias", Alias: "al1"}, {Op: "aisalias", Alias: "al1"}, {Op: "agetidx", Name: "i1"}}, map[int]bool{2: true}, nil)
@@ -1027,11 +1076,62 @@ func genAlias(r *vhlib.Rng, n int, stream string) []*scenario {
 		var ops []kOp
 		cuts := map[int]bool{}
 		restarted := false
+		if stream == "shared" {
+			// DIRECTED: one alias shared by 2-3 indexes, removed from one of them, then from the
+			// others down to an index's LAST alias; every step is followed by the full snapshot of
+			// all read functions (taken by the worker after each operation), and a restart is put
+			// at a random step so that the reads happen before and after it
+			al := vhlib.Pick(r, als)
+			k := r.Range(2, 3)
+			perm := append([]string{}, idxs...)
+			for a := len(perm) - 1; a > 0; a-- {
+				b := r.Intn(a + 1)
+				perm[a], perm[b] = perm[b], perm[a]
+			}
+			sh := perm[:k]
+			for _, ix := range sh {
+				ops = append(ops, kOp{Op: "aadd", Name: ix, Alias: al})
+			}
+			if r.Chance(60) { // one of the indexes also has a second alias, so that one removal is not a last-alias removal
+				other := vhlib.Pick(r, als)
+				ops = append(ops, kOp{Op: "aadd", Name: sh[r.Intn(k)], Alias: other})
+			}
+			cutAt := -1
+			if r.Chance(60) {
+				cutAt = r.Intn(k + 1)
+			}
+			for a, ix := range sh {
+				if a == cutAt {
+					cuts[len(ops)] = true
+					// after a restart the reverse map of tenant 0 is empty (known finding): re-establish
+					// the pairs that are still stored by a further add on each index, so that the
+					// removals below are again observable through the reverse lookups
+					for _, jx := range sh[a:] {
+						ops = append(ops, kOp{Op: "aadd", Name: jx, Alias: "re-" + al})
+					}
+				}
+				ops = append(ops, kOp{Op: "aremove", Name: ix, Alias: al})
+				ops = append(ops, kOp{Op: "aisalias", Alias: al})
+			}
+			if cutAt == k {
+				cuts[len(ops)] = true
+			}
+			restarted = cutAt >= 0
+			ops = append(ops, kOp{Op: "agetidx", Name: sh[0]})
+		}
 		l := r.Range(6, 20)
+		if stream == "shared" {
+			l = r.Range(0, 8)
+		}
 		for k := 0; k < l; k++ {
 			org := int64(0)
 			if r.Chance(20) {
 				org = 5
+			}
+			// a small alias pool makes shared aliases frequent
+			ap := als
+			if stream == "shared" || r.Chance(50) {
+				ap = als[:2]
 			}
 			switch x := r.Intn(100); {
 			case x < 35:
@@ -1039,17 +1139,18 @@ func genAlias(r *vhlib.Rng, n int, stream string) []*scenario {
 				if r.Chance(25) {
 					op = "aaddpost"
 				}
-				ops = append(ops, kOp{Op: op, Org: org, Name: vhlib.Pick(r, idxs), Alias: vhlib.Pick(r, als)})
-			case x < 52:
-				ops = append(ops, kOp{Op: "aremove", Org: org, Name: vhlib.Pick(r, idxs), Alias: vhlib.Pick(r, als)})
+				ops = append(ops, kOp{Op: op, Org: org, Name: vhlib.Pick(r, idxs), Alias: vhlib.Pick(r, ap)})
+			case x < 55:
+				ops = append(ops, kOp{Op: "aremove", Org: org, Name: vhlib.Pick(r, idxs), Alias: vhlib.Pick(r, ap)})
 			case x < 78:
 				ops = append(ops, kOp{Op: "agetidx", Org: org, Name: vhlib.Pick(r, append(idxs, als...))})
 			default:
-				// main stream: the reverse lookup is only asked before the first restart
-				if stream == "main" && restarted {
+				// main stream: the reverse lookup OPERATION (compared with the Coq model) is only asked
+				// before the first restart; the snapshots are taken always
+				if (stream == "main" || stream == "shared") && restarted {
 					ops = append(ops, kOp{Op: "agetidx", Org: org, Name: vhlib.Pick(r, idxs)})
 				} else {
-					ops = append(ops, kOp{Op: "aisalias", Org: org, Alias: vhlib.Pick(r, als)})
+					ops = append(ops, kOp{Op: "aisalias", Org: org, Alias: vhlib.Pick(r, ap)})
 				}
 			}
 			if r.Chance(12) {
@@ -1069,7 +1170,11 @@ func genAlias(r *vhlib.Rng, n int, stream string) []*scenario {
 				clean[j] = true
 			}
 		}
-		scs = append(scs, &scenario{Store: "alias", Class: stream, Orgs: orgs, Segs: segs, Clean: clean})
+		nm := names
+		if stream == "shared" {
+			nm = append(append([]string{}, names...), "re-al1", "re-al-2", "re-i1", "re-ü2", "re-al 3")
+		}
+		scs = append(scs, &scenario{Store: "alias", Class: stream, Orgs: orgs, Names: nm, Segs: segs, Clean: clean})
 	}
 	return scs
 }
@@ -1083,15 +1188,39 @@ func coqSet(xs []string) string {
 	return vhlib.CoqList(items)
 }
 
+func sortedKeys(m map[string]bool) []string {
+	var r []string
+	for k, v := range m {
+		if v {
+			r = append(r, k)
+		}
+	}
+	sort.Strings(r)
+	return r
+}
+
+// checkAlias: the property evaluated straight on the observations.  The harness keeps the spec
+// map (tenant, index) -> alias set from the acknowledged writes; after EVERY operation all read
+// functions (snapshot taken by the worker) must agree with it: index -> aliases and, derived,
+// alias -> indexes.
 func checkAlias(sc *scenario, sum *vhlib.Summary) *verdict {
 	v := &verdict{}
 	fwd := map[int64]map[string]map[string]bool{}
-	restarted, shut := false, false
+	type pair struct {
+		org    int64
+		al, ix string
+	}
+	epochOf := map[pair]int{}    // restart count when the pair was last written
+	everHeld := map[pair]bool{}  // the pair was stored at some time
+	epoch := 0
+	shut := false
+	stop := false // a failure that is not a known class was reported: the spec map is no longer trusted
+	knownReported := map[string]bool{}
 	fail := func(class, detail string, k int) {
 		v.fails++
 		sum.Fail(class, detail, map[string]interface{}{"scenario": sc, "failing_op_index": k})
 	}
-	failed := false
+	var lastWrite kOp
 	for k, f := range sc.flat() {
 		if f.Restart {
 			if f.Clean {
@@ -1100,7 +1229,7 @@ func checkAlias(sc *scenario, sum *vhlib.Summary) *verdict {
 				v.ops = append(v.ops, "ACrashRestart")
 			}
 			v.obs = append(v.obs, "AAck true")
-			restarted = true
+			epoch++
 		}
 		res := sc.res[k]
 		if fwd[f.Org] == nil {
@@ -1110,7 +1239,7 @@ func checkAlias(sc *scenario, sum *vhlib.Summary) *verdict {
 		case "aadd", "aaddpost":
 			ack := res.Status == 200
 			if f.Op == "aaddpost" {
-				// the POST handler answers 200 "acknowledged" even when the action failed: read the file state instead
+				// the POST handler answers 200 "acknowledged" even when the action failed
 				ack = f.Org == 0
 			}
 			if ack {
@@ -1118,12 +1247,20 @@ func checkAlias(sc *scenario, sum *vhlib.Summary) *verdict {
 					fwd[f.Org][f.Name] = map[string]bool{}
 				}
 				fwd[f.Org][f.Name][f.Alias] = true
+				epochOf[pair{f.Org, f.Alias, f.Name}] = epoch
+				everHeld[pair{f.Org, f.Alias, f.Name}] = true
+				// AddAliases re-registers every alias of the index in memory
+				for a := range fwd[f.Org][f.Name] {
+					epochOf[pair{f.Org, a, f.Name}] = epoch
+				}
+				lastWrite = f.kOp
 			}
 			v.ops = append(v.ops, fmt.Sprintf("AAdd %d %s %s", f.Org, vhlib.CoqStr(f.Name), vhlib.CoqStr(f.Alias)))
 			v.obs = append(v.obs, "AAck "+vhlib.CoqBool(ack))
 		case "aremove":
 			if res.Status == 200 {
 				delete(fwd[f.Org][f.Name], f.Alias)
+				lastWrite = f.kOp
 			}
 			v.ops = append(v.ops, fmt.Sprintf("ARemove %d %s %s", f.Org, vhlib.CoqStr(f.Name), vhlib.CoqStr(f.Alias)))
 			v.obs = append(v.obs, "AAck "+vhlib.CoqBool(res.Status == 200))
@@ -1136,24 +1273,13 @@ func checkAlias(sc *scenario, sum *vhlib.Summary) *verdict {
 			for a := range r[f.Name].Aliases {
 				got = append(got, a)
 			}
-			var want []string
-			for a := range fwd[f.Org][f.Name] {
-				want = append(want, a)
-			}
-			sort.Strings(got)
-			sort.Strings(want)
 			v.ops = append(v.ops, fmt.Sprintf("AGetIndex %d %s", f.Org, vhlib.CoqStr(f.Name)))
 			v.obs = append(v.obs, "ASet "+coqSet(got))
-			if !failed && (res.Status != 200 || strings.Join(got, "\x00") != strings.Join(want, "\x00")) {
-				d := fmt.Sprintf("aliases of index %q tenant %d: read %q, last written %q", f.Name, f.Org, got, want)
-				if shut {
-					fail("alias_shutdown_flush_writes_reversed_files", d+" (after a clean shutdown: FlushAliasMapToFile wrote <alias>.json holding the index names)", k)
-				} else if restarted {
-					fail("alias_forward_read_differs_after_restart", d, k)
-				} else {
-					fail("alias_forward_read_differs_from_last_write", d, k)
-				}
-				failed = true
+			want := sortedKeys(fwd[f.Org][f.Name])
+			sort.Strings(got)
+			if !stop && !shut && (res.Status != 200 || strings.Join(got, "\x00") != strings.Join(want, "\x00")) {
+				fail("alias_forward_read_differs_from_last_write", fmt.Sprintf("GET %s/_alias tenant %d: read %q, last written %q", f.Name, f.Org, got, want), k)
+				stop = true
 			}
 		case "aisalias":
 			var got []string
@@ -1166,31 +1292,180 @@ func checkAlias(sc *scenario, sum *vhlib.Summary) *verdict {
 			}
 			v.ops = append(v.ops, fmt.Sprintf("AIsAlias %d %s", f.Org, vhlib.CoqStr(f.Alias)))
 			v.obs = append(v.obs, "ASet "+coqSet(got))
-			var want []string
-			for ix, as := range fwd[f.Org] {
-				if as[f.Alias] {
-					want = append(want, ix)
+			// the answer itself is judged through the snapshot below (IsAlias is part of it)
+		}
+		if stop || res.Snap == nil {
+			continue
+		}
+		// the operation a new difference is attributed to: the snapshot is taken after every
+		// operation, so it is the current one if that is a write attempt (acknowledged or not)
+		cause := lastWrite
+		if f.Op == "aadd" || f.Op == "aaddpost" || f.Op == "aremove" {
+			cause = f.kOp
+		}
+		// ---- all read functions against the spec map, per tenant
+		for _, org := range sc.Orgs {
+			sn := res.Snap[fmt.Sprint(org)]
+			if sn == nil {
+				continue
+			}
+			spec := fwd[org]
+			known := func(class, detail string) {
+				// what the unchanged code gets wrong: reported outside the main streams only, once per scenario
+				if sc.Class != "main" && sc.Class != "shared" && !knownReported[class] {
+					knownReported[class] = true
+					fail(class, detail, k)
+				} else if !knownReported[class] {
+					knownReported[class] = true
+					sum.Count("alias/tolerated_in_main_stream/" + class)
 				}
 			}
-			sort.Strings(want)
-			good := false
-			if len(want) == 0 {
-				good = len(got) == 0
-			} else if len(got) == 1 {
-				for _, w := range want {
-					good = good || w == got[0]
+			// (1) index -> aliases
+			for _, n := range sc.Names {
+				got, want := sn.Fwd[n], sortedKeys(spec[n])
+				if strings.Join(got, "\x00") == strings.Join(want, "\x00") {
+					continue
 				}
-			}
-			if !failed && !good {
-				d := fmt.Sprintf("alias %q tenant %d resolves to %q, the indexes holding it are %q", f.Alias, f.Org, got, want)
+				d := fmt.Sprintf("after op %d (%s %s/%s tenant %d): GetAliasesAsArray(%q, tenant %d) = %q, last written %q", k, f.Op, f.Name, f.Alias, f.Org, n, org, got, want)
 				if shut {
-					fail("alias_shutdown_flush_writes_reversed_files", d, k)
-				} else if restarted {
-					fail("alias_lookup_lost_after_restart", d+" (initializeAliasToIndexMap scans only sub-directories, tenant 0's files are not read)", k)
-				} else {
-					fail("alias_reverse_lookup_differs_from_last_write", d, k)
+					known("alias_shutdown_flush_writes_reversed_files", d+" (after a clean shutdown: FlushAliasMapToFile wrote <alias>.json holding the index names)")
+					continue
 				}
-				failed = true
+				cl := "alias_forward_read_differs_from_last_write"
+				if cause.Name != n && cause.Op != "" {
+					cl = "alias_write_disturbs_other_index"
+				}
+				if epoch > 0 {
+					cl += "_after_restart"
+				}
+				fail(cl, d, k)
+				stop = true
+			}
+			if stop {
+				break
+			}
+			if shut {
+				// the files are polluted from here on; the reverse map is rebuilt from them
+				continue
+			}
+			// (2) alias -> indexes: the spec's reverse view
+			specRev := map[string]map[string]bool{}
+			for ix, as := range spec {
+				for a, ok := range as {
+					if ok {
+						if specRev[a] == nil {
+							specRev[a] = map[string]bool{}
+						}
+						specRev[a][ix] = true
+					}
+				}
+			}
+			// a pair may be missing from the in-memory reverse map only if it was written before the
+			// last restart (known: tenant 0's files are not scanned at start)
+			lostOK := func(a, ix string) bool { return epochOf[pair{org, a, ix}] < epoch }
+			judgeMissing := func(fn, a, ix, d string) {
+				if lostOK(a, ix) {
+					known("alias_lookup_lost_after_restart", d+" (initializeAliasToIndexMap scans only sub-directories, tenant 0's files are not read)")
+					return
+				}
+				cl := "alias_reverse_lookup_differs_from_last_write"
+				if cause.Op == "aremove" && cause.Alias == a && cause.Name != ix && cause.Org == org {
+					cl = "alias_remove_disturbs_other_index"
+				}
+				fail(cl, d, k)
+				stop = true
+			}
+			judgeExtra := func(fn, a, ix, d string) {
+				cl := "alias_resolves_to_index_never_written"
+				if everHeld[pair{org, a, ix}] {
+					cl = "alias_removed_still_resolves"
+				}
+				fail(cl, d, k)
+				stop = true
+			}
+			ctx := fmt.Sprintf("after op %d (%s %s/%s tenant %d), attributed to %s %s/%s", k, f.Op, f.Name, f.Alias, f.Org, cause.Op, cause.Name, cause.Alias)
+			for _, a := range sc.Names {
+				want := specRev[a]
+				// GetAllAliasesAsMapArray: the whole set
+				got := map[string]bool{}
+				for _, ix := range sn.Rev[a] {
+					got[ix] = true
+				}
+				for ix := range got {
+					if !want[ix] && !stop {
+						judgeExtra("GetAllAliasesAsMapArray", a, ix, fmt.Sprintf("%s: GetAllAliasesAsMapArray(tenant %d)[%q] = %q but index %q does not hold the alias (indexes holding it: %q)", ctx, org, a, sn.Rev[a], ix, sortedKeys(want)))
+					}
+				}
+				for ix := range want {
+					if !got[ix] && !stop {
+						judgeMissing("GetAllAliasesAsMapArray", a, ix, fmt.Sprintf("%s: GetAllAliasesAsMapArray(tenant %d)[%q] = %q lacks index %q which holds the alias (indexes holding it: %q)", ctx, org, a, sn.Rev[a], ix, sortedKeys(want)))
+					}
+				}
+				if stop {
+					break
+				}
+				// IsAlias / GetIndexNameFromAlias: one of the indexes, or nothing iff there is none
+				for fn, ans := range map[string]string{"IsAlias": sn.IsAlias[a], "GetIndexNameFromAlias": sn.FromAlias[a]} {
+					if stop {
+						break
+					}
+					d := fmt.Sprintf("%s: %s(%q, tenant %d) = %q, indexes holding the alias: %q", ctx, fn, a, org, ans, sortedKeys(want))
+					if ans != "" && !want[ans] {
+						judgeExtra(fn, a, ans, d)
+					} else if ans == "" && len(want) > 0 {
+						all := true
+						for ix := range want {
+							all = all && lostOK(a, ix)
+						}
+						if all {
+							known("alias_lookup_lost_after_restart", d)
+						} else {
+							for ix := range want {
+								if !lostOK(a, ix) && !stop {
+									judgeMissing(fn, a, ix, d)
+								}
+							}
+						}
+					}
+				}
+				if stop {
+					break
+				}
+				// ExpandAndReturnIndexNames(alias): the indexes holding it; the name itself if none
+				exp := sn.Expand[a]
+				d := fmt.Sprintf("%s: ExpandAndReturnIndexNames(%q, tenant %d) = %q, indexes holding the alias: %q", ctx, a, org, exp, sortedKeys(want))
+				if len(exp) == 1 && exp[0] == a && !want[a] {
+					// "not an alias"
+					for ix := range want {
+						if stop {
+							break
+						}
+						if lostOK(a, ix) {
+							known("alias_lookup_lost_after_restart", d)
+						} else {
+							judgeMissing("ExpandAndReturnIndexNames", a, ix, d)
+						}
+					}
+					continue
+				}
+				eg := map[string]bool{}
+				for _, ix := range exp {
+					eg[ix] = true
+					if !want[ix] && !stop {
+						judgeExtra("ExpandAndReturnIndexNames", a, ix, d)
+					}
+				}
+				for ix := range want {
+					if !eg[ix] && !stop {
+						judgeMissing("ExpandAndReturnIndexNames", a, ix, d)
+					}
+				}
+				if stop {
+					break
+				}
+			}
+			if stop {
+				break
 			}
 		}
 	}
@@ -1299,6 +1574,18 @@ func checkLookup(sc *scenario, sum *vhlib.Summary) *verdict {
 func genAdb(r *vhlib.Rng, n int, dup bool) []*scenario {
 	orgs := []int64{0, 4}
 	var scs []*scenario
+	if dup {
+		// fixed minimal inputs of the two known classes
+		scs = append(scs, &scenario{Store: "adb", Class: "duplicate_names", Orgs: orgs, Segs: [][]kOp{{
+			{Op: "ccreate", Org: 0, Name: "c0", Desc: "p", Note: "1", NewRef: 1},
+			{Op: "ccreate", Org: 0, Name: "c1", Desc: "p", Note: "7", NewRef: 2},
+			{Op: "cupdate", Org: 0, Ref: 2, Name: "c0", Desc: "p", Note: "7"},
+			{Op: "clist", Org: 0}}}})
+		scs = append(scs, &scenario{Store: "adb", Class: "duplicate_names", Orgs: orgs, Segs: [][]kOp{{
+			{Op: "ccreate", Org: 0, Name: "c0", Desc: "p", Note: "1", NewRef: 1},
+			{Op: "ccreate", Org: 4, Name: "c0", Desc: "q", Note: "2", NewRef: 2},
+			{Op: "clist", Org: 4}}}})
+	}
 	for i := 0; i < n; i++ {
 		var ops []kOp
 		cuts := map[int]bool{}
@@ -1608,6 +1895,7 @@ func runStores(cfg vhlib.Config, r *vhlib.Rng, sum *vhlib.Summary) {
 	scs = append(scs, genUsq(r.Fork(), 40*mult)...)
 	scs = append(scs, genDash(r.Fork(), 40*mult, false)...)
 	scs = append(scs, genAlias(r.Fork(), 30*mult, "main")...)
+	scs = append(scs, genAlias(r.Fork(), 30*mult, "shared")...)
 	scs = append(scs, genLookup(r.Fork(), 25*mult)...)
 	scs = append(scs, genAdb(r.Fork(), 25*mult, false)...)
 	scs = append(scs, genAdb(r.Fork(), 6*mult, true)...)
